@@ -76,8 +76,10 @@ def impl_road_albedo(pkg, m, s, e, alb, vc, va, full=False, sim=None, circ=''):
     (alb_wall = 0 gives fr = 1 and mr = alb_road * roadSol exactly)."""
     SolarCalcs = pkg.solarcalcs.SolarCalcs
     road = NS(albedo=alb, vegcoverage=vc, solRec=F(0))
+    # (treeSensHeat / treeLatHeat as a PREVIOUS in-season sunlit step left them: a call that does not assign them
+    #  off season keeps this stale vegetation heat in the canyon balance)
     UCM = NS(canAspect=F(3, 4), wallConf=F(1, 4), roadConf=F(1, 2), alb_wall=F(0), road=road,
-             vegcover=vc * F(1, 2), treeCoverage=F(1, 10))
+             vegcover=vc * F(1, 2), treeCoverage=F(1, 10), treeSensHeat=F(7919, 100), treeLatHeat=F(4973, 100))
     par = NS(vegStart=s, vegEnd=e, vegAlbedo=va, treeFLat=F(1, 2), grassFLat=F(2, 5))
     sol = SolarCalcs(UCM, [], sim or NS(month=m), NS(), NS(dir=F(500), dif=F(100)), par, NS(solRec=F(0)))
 
